@@ -290,7 +290,7 @@ def r4(ctx: Context) -> None:
     ctx.add("R4", "state-backend-envelope::reader-keys-subset-of-writer-keys", ok, de.loc(), "" if ok else f"reader uses {sorted(rk - wk)} which the writer never sets (writer: {sorted(wk)})")
     # discriminator: PynencError branch <-> from_json ; other <-> client_data_store
     s_txt, d_txt = ast.unparse(ser.node), ast.unparse(de.node)
-    ok = "isinstance(exception, PynencError)" in s_txt and "to_json()" in s_txt and "PynencError.from_json" in d_txt and "client_data_store.serialize" in s_txt and "client_data_store.deserialize" in d_txt
+    ok = f"isinstance({ser.params[1]}, PynencError)" in s_txt and "to_json()" in s_txt and "PynencError.from_json" in d_txt and "client_data_store.serialize" in s_txt and "client_data_store.deserialize" in d_txt
     ctx.add("R4", "state-backend-envelope::branches-paired", ok, ser.loc(), "" if ok else "the PynencError / generic branches of writer and reader are not paired (to_json<->from_json, serialize<->deserialize)")
     # deserialize reads error_name + error_data for from_json, error_data for generic
     for c in calls_in(de.node):
